@@ -127,6 +127,12 @@ where
         self.initial_cluster_size
     }
 
+    /// A node may skip vote collection only while it is still the sole voting member: a node
+    /// bootstrapped alone and later expanded must win a real majority like any other.
+    async fn is_single_node_cluster(&self) -> bool {
+        self.initial_cluster_size == 1 && self.voters().await.is_empty()
+    }
+
     async fn nodes_with_status(
         &self,
         status: NodeStatus,
